@@ -50,7 +50,12 @@ class Sut:
         ec = corpus._ec(spec.get('ec', 0))
         text = spec.get('text')
         if kind == 'msg':
-            if text is not None:
+            if spec.get('profile'):
+                import hl7apy
+                from worlds import valorder_world as VO
+                mp = hl7apy.load_message_profile(VO.PROFILE)
+                e = parser.parse_message(text, validation_level=level, message_profile=mp)
+            elif text is not None:
                 e = parser.parse_message(text, validation_level=level, find_groups=False)
             else:
                 e = core.Message(name, version=version, validation_level=level, encoding_chars=ec)
@@ -72,7 +77,7 @@ class Sut:
         else:
             raise ValueError(kind)
         self.roots.append(e)
-        meta = {'kind': kind, 'name': name, 'version': version, 'ec': ec, 'level': level}
+        meta = {'kind': kind, 'name': name, 'version': version, 'ec': ec, 'level': level, 'profile': bool(spec.get('profile'))}
         self.meta.append(meta)
         self.models.append(self._model_of(e, meta))
         return e
@@ -80,6 +85,8 @@ class Sut:
     def _model_of(self, e, meta):
         """Initial model = the element's own initial encoding, parsed by the model's parser."""
         kind = meta['kind']
+        if meta.get('profile'):
+            return None      # the reference model knows the standard tables only
         try:
             text = e.to_er7()
         except Exception:
@@ -224,6 +231,33 @@ class Sut:
                     c.parent = P
                 else:
                     P.add(c)
+            return None
+        if k == 'selfassign':
+            # re-assign a segment from its own ER7 text: nothing observable may change
+            P = self.nav(ri, op['p'])
+            step = op['c']
+            attr = self.attr_of(ri, op['p'], step)
+            proxy = getattr(P, attr)
+            if proxy is None or len(proxy) <= step[2]:
+                raise NavError('no such repetition')
+            root = self.roots[ri]
+
+            def obs():
+                r = root.validate(return_errors=True)
+                return [root.to_er7(), sorted(canon_text(str(x)) for x in r.errors), sorted(canon_text(str(x)) for x in r.warnings)]
+            b = obs()
+            text = proxy[step[2]].to_er7()
+            proxy[step[2]] = text
+            a = obs()
+            if a != b:
+                what = 'encoding' if a[0] != b[0] else 'validation report'
+                self.w.violate('C04.reassign', 're-assigning a segment from its own text changes the %s' % what,
+                               '%s %s: before=%r after=%r' % (self.tag, attr, _short(b[1:], 300), _short(a[1:], 300)),
+                               len(self.w.ops_done) - 1)
+            else:
+                self.w.probe('c04_selfassign_checked')
+                if self.meta[ri].get('profile'):
+                    self.w.probe('c04_selfassign_profile')
             return None
         if k == 'detach':
             e = self.nav(ri, op['p'])
@@ -646,7 +680,7 @@ class HistoryWorld:
             t, key, r = mpath[-1]
             EM.op_del(parent, t, key, r)
             return done()
-        if k in ('read', 'validate', 'mkroot', 'hold'):
+        if k in ('read', 'validate', 'mkroot', 'hold', 'selfassign'):
             return (0, 0)
         return 'lost'
 
